@@ -34,11 +34,12 @@ REQUIRED = ["order_and_count", "method", "url", "http_version", "request_headers
 ENGINE = "direct"
 TECHNIQUE = "round-trip differential against the generator's own record of each exchange"
 RULE = (
-    "case = 1-4 HTTP flows exported together; each flow = method (8 incl. an extension method) x scheme/host/port/path pools "
+    "case = 1-4 HTTP flows exported together, their request start times ascending, descending, shuffled, all equal or with ties "
+    "relative to the exported order; each flow = method (8 incl. an extension method) x scheme/host/port/path pools "
     "(queries, percent-encoding, non-default ports, explicit default port in Host, rare punycode host and IPv6 literal) x version (1.0, 1.1, 2.0, 3) x header "
     "multisets (duplicates, mixed case, empty and non-ASCII UTF-8 values, rare Latin-1 bytes) x request body (none/text/form/binary) x "
     "response status x body kind (empty, text in utf-8/latin-1/shift_jis/utf-16/undeclared, json, html, binary) x content coding "
-    "(identity, gzip, deflate, br) on either side; distinct = (one / several flows, coarse feature tuple of the first flow [method "
+    "(identity, gzip, deflate, br) on either side; distinct = (one / several flows, start-time order mode, coarse feature tuple of the first flow [method "
     "class, version, request body kind and coding, response body kind, charset, coding, has Content-Length, rare-feature flags]); "
     "non-trivial = some flow has a response and at least one of: body, duplicate header, non-ASCII header, content coding, non-1.1 "
     "version, query"
@@ -130,7 +131,8 @@ def gen_body(r, side):
     return b, f"text/plain; charset={cs}", {"body": "text", "charset": cs}
 
 
-def gen_flow(r, idx):
+def gen_flow(r, idx, t0=None):
+    t0 = 946681200.0 + idx if t0 is None else t0
     method = r.choice(METHODS)
     scheme = r.choice(["http", "https"])
     ipv6 = r.random() < 0.03
@@ -177,8 +179,8 @@ def gen_flow(r, idx):
         http.Headers(rh),
         req_raw,
         None,
-        946681200.0 + idx,
-        946681201.0 + idx,
+        t0,
+        t0 + 1.0,
     )
     feats.update(req_body=rbf["body"], req_charset=rbf["charset"], req_coding=req_coding, req_dup=len({k.lower() for k, _ in rh}) < len(rh), req_latin1=latin1_req, req_nonascii=any(max(v, default=0) > 127 for _, v in rh))
 
@@ -227,8 +229,8 @@ def gen_flow(r, idx):
         http.Headers(sh),
         raw,
         None,
-        946681202.0 + idx,
-        946681203.0 + idx,
+        t0 + 2.0,
+        t0 + 3.0,
     )
     exp.update(status=status, resp_headers=sh, resp_plain=plain)
     feats.update(
@@ -327,7 +329,21 @@ def run(ctx):
     for i in ctx.cases():
         r = ctx.rng
         n = r.choice([1, 1, 2, 3, 4])
-        gen = [gen_flow(r, k) for k in range(n)]
+        # request start times relative to the exported order: flows are exported in the order given (completion /
+        # selection order), which need not be the order of their start times
+        order_mode = r.choice(["ascending", "descending", "shuffled", "shuffled", "equal", "ties"]) if n > 1 else "single"
+        if order_mode == "ascending":
+            ts = [946681200.0 + 10 * k for k in range(n)]
+        elif order_mode == "descending":
+            ts = [946681200.0 - 10 * k for k in range(n)]
+        elif order_mode == "equal":
+            ts = [946681200.0] * n
+        elif order_mode == "ties":
+            ts = [946681200.0 + 10 * r.randrange(2) for _ in range(n)]
+        else:
+            ts = [946681200.0 + r.choice([0.001, 0.5, 1, 7, 3600]) * r.randrange(-5, 6) for _ in range(n)]
+        gen = [gen_flow(r, k, ts[k]) for k in range(n)]
+        ctx.seen("start_time_orders", order_mode if order_mode not in ("shuffled", "ties") else f"{order_mode}:{'sorted' if ts == sorted(ts) else 'unsorted'}")
         flows = [g[0] for g in gen]
         feats_all = [g[2] for g in gen]
 
@@ -362,7 +378,7 @@ def run(ctx):
                 except Exception as e2:
                     ctx.violation("import-raises", W(k, {"exc": repr(e2), "cause": repr(e2.__context__)}), classify("import-raises", feats_all[k], {}))
             ctx.count("import_total")
-            ctx.case(case_sig(feats_all), nontrivial=any(nontrivial(fe) for fe in feats_all))
+            ctx.case(case_sig(feats_all, order_mode), nontrivial=any(nontrivial(fe) for fe in feats_all))
             continue
         ctx.count("import_total")
 
@@ -372,9 +388,16 @@ def run(ctx):
         else:
             idxs = [g.request.headers.get("x-idx") for g in back]
             if idxs != [str(k) for k in range(n)]:
-                ctx.violation("order-differs", {"imported_x_idx": idxs, "features": feats_all}, None)
+                ctx.violation("order-differs", {"imported_x_idx": idxs, "start_times_in_exported_order": ts, "start_time_order": order_mode, "features": feats_all}, None)
 
-        for k, g in enumerate(back[:n]):
+        # field comparison pairs each exported flow with the imported flow carrying its x-idx marker when the imported
+        # markers are a permutation of the exported ones (a pure reordering is reported once, as order-differs)
+        marks = [g.request.headers.get("x-idx") for g in back]
+        if sorted(m or "" for m in marks) == sorted(str(k) for k in range(n)):
+            paired = [back[marks.index(str(k))] for k in range(n)]
+        else:
+            paired = back[:n]
+        for k, g in enumerate(paired):
             f, exp, feats = gen[k]
             q = g.request
             ctx.count("method")
@@ -420,9 +443,9 @@ def run(ctx):
 
         ctx.count("flows_compared", n)
         ctx.case(
-            case_sig(feats_all),
+            case_sig(feats_all, order_mode),
             nontrivial=any(nontrivial(fe) for fe in feats_all),
-            sample={"n_flows": n, "features": feats_all[0], "url": gen[0][1]["url"], "request_headers": gen[0][1]["req_headers"], "response_headers": gen[0][1].get("resp_headers")},
+            sample={"n_flows": n, "start_time_order": order_mode, "features": feats_all[0], "url": gen[0][1]["url"], "request_headers": gen[0][1]["req_headers"], "response_headers": gen[0][1].get("resp_headers")},
         )
 
 
@@ -451,9 +474,9 @@ def sig_of(fe):
     )
 
 
-def case_sig(feats_all):
-    """Number of flows (1 / several) and the coarse feature tuple of the first flow."""
-    return (min(len(feats_all), 2), sig_of(feats_all[0]))
+def case_sig(feats_all, order_mode="single"):
+    """Number of flows (1 / several), order of their start times, and the coarse feature tuple of the first flow."""
+    return (min(len(feats_all), 2), order_mode, sig_of(feats_all[0]))
 
 
 def nontrivial(fe):
